@@ -55,6 +55,9 @@ def gen_td(rng, kind):
     td = TensorDict({"a": leaf(0), "b": leaf(1)}, batch_size=b, device=device, names=names)
     if kind in ("nested", "mixed"):
         td["n"] = TensorDict({"x": leaf(2), "m": TensorDict({"z": leaf(3)}, batch_size=b, device=device)}, batch_size=b, device=device)
+    if kind == "nested-batch":
+        # a sub-tensordict with more batch dims (and its own names) than its parent
+        td["deep"] = TensorDict({"x": leaf(4, [2]), "y": leaf(5, [2, 1])}, batch_size=b + [2], device=device, names=(names + ["z"]) if names else None)
     if kind == "empty-node":
         td["e"] = TensorDict({}, batch_size=b, device=device)
     if kind in ("nontensor", "mixed", "nontensor-num"):
@@ -90,7 +93,7 @@ def gen_td(rng, kind):
     return td
 
 
-KINDS = ["plain", "nested", "mixed", "empty-node", "nontensor", "nontensor-num", "nontensor-stack", "noncontig", "zero", "flat1d", "lazy", "tensorclass", "njt"]
+KINDS = ["plain", "nested", "nested-batch", "mixed", "empty-node", "nontensor", "nontensor-num", "nontensor-stack", "noncontig", "zero", "flat1d", "lazy", "tensorclass", "njt"]
 
 
 def trips(td, scratch, rng):
@@ -110,6 +113,16 @@ def trips(td, scratch, rng):
         td.consolidate(filename=f, num_threads=rng.choice([0, 1, 4]))
         return TensorDict.from_consolidated(f)
     out["consolidate(file)+from_consolidated"] = (cons_file, full)
+
+    def cons_file_over(bigger):
+        # the target file already holds a former consolidation (larger or smaller than the new one)
+        f = scratch / f"o{rng.randint(0, 10**9)}.mmap"
+        n = 200 if bigger else 1
+        TensorDict({"old": torch.arange(float(n)), "older": torch.ones(n, 2, dtype=torch.int64)}, [n]).consolidate(filename=f)
+        td.consolidate(filename=f, num_threads=rng.choice([0, 1, 4]))
+        return TensorDict.from_consolidated(f)
+    out["consolidate(file over a larger file)+from_consolidated"] = (lambda: cons_file_over(True), full)
+    out["consolidate(file over a smaller file)+from_consolidated"] = (lambda: cons_file_over(False), full)
     out["pickle(consolidated)"] = (lambda: pickle.loads(pickle.dumps(td.consolidate())), full)
     out["deepcopy(consolidated)"] = (lambda: copy.deepcopy(td.consolidate()), full)
 
@@ -142,6 +155,8 @@ def applicable(name, kind, td):
         return kind == "flat1d"
     if name == "namedtuple" and kind in ("lazy", "tensorclass", "njt", "nontensor-stack"):
         return False
+    if name.startswith("consolidate(file over") and kind in ("tensorclass", "njt"):
+        return False
     if kind == "njt" and name not in ("pickle", "deepcopy", "consolidate(num_threads=0)", "consolidate(num_threads=1)", "consolidate(num_threads=4)",
                                       "pickle(consolidated)", "consolidate(file)+from_consolidated"):
         return False
@@ -167,7 +182,7 @@ def run_trips(run):
     try:
         with warnings.catch_warnings():
             warnings.simplefilter("ignore")
-            for it in range(130 if quick else 780):
+            for it in range(140 if quick else 840):
                 kind = KINDS[it % len(KINDS)]
                 td = gen_td(rng, kind)
                 lock = rng.random() < 0.4
